@@ -182,6 +182,15 @@ func main() {
 						stateChanging++
 						mu.Unlock()
 						dirty = true
+						// an accepted packet is gossiped on in the background (with retries): give that the time to go wrong
+						// before the daemon is replaced
+						time.Sleep(1500 * time.Millisecond)
+						if !w.Alive() {
+							mu.Lock()
+							candGroup[x.Kind+"|"+x.Method+"|"+x.Base]++
+							cands = append(cands, finding{"process-died", x, prev, "the daemon process exited shortly after accepting the request: " + w.StderrTail()})
+							mu.Unlock()
+						}
 					}
 				}
 				if dirty {
@@ -339,6 +348,9 @@ func confirm(f finding) (bool, string) {
 		w.Do(*f.prev, dw.ConfirmDeadline)
 	}
 	o := w.Do(f.it, dw.ConfirmDeadline)
+	if f.kind == "process-died" {
+		time.Sleep(2 * time.Second) // background work started by the request (gossip retries)
+	}
 	switch {
 	case !w.Alive():
 		return true, "the daemon process exited: " + w.StderrTail()
